@@ -1,3 +1,3 @@
 From Coq Require Import ExtrOcamlBasic NArith List.
 From LV Require Import lib.Conv model.Seeder spec.SeederSpec model.WorkersFifo.
-Extraction "model.ml" conv_roots v_fixed v_old hhistory seeder_spec_ok w_init wstep.
+Extraction "model.ml" conv_roots v_fixed v_old hhistory seeder_spec_ok seeder_spec_ok_stopped w_init wstep.
